@@ -16,6 +16,10 @@ import (
 	_ "github.com/klev-dev/klevdb/internal/zzverif/h_codec"
 	_ "github.com/klev-dev/klevdb/internal/zzverif/h_recover"
 	_ "github.com/klev-dev/klevdb/internal/zzverif/h_step"
+	_ "github.com/klev-dev/klevdb/internal/zzverif/h_damage"
+	_ "github.com/klev-dev/klevdb/internal/zzverif/h_helpers"
+	_ "github.com/klev-dev/klevdb/internal/zzverif/h_locks"
+	_ "github.com/klev-dev/klevdb/internal/zzverif/h_backup"
 	"github.com/klev-dev/klevdb/internal/zzverif/vrt"
 )
 
